@@ -319,6 +319,8 @@ func (r *runtime) InstantiateModule(
 	// Only add guest module configuration to guests.
 	if !code.module.IsHostModule {
 		if sockConfig, ok := ctx.Value(internalsock.ConfigKey{}).(*internalsock.Config); ok {
+			// Do not modify the caller's configuration: it may be reused with another context.
+			config = config.clone()
 			config.sockConfig = sockConfig
 		}
 	}
